@@ -29,6 +29,8 @@ import CijProofs.Lemmas.TasksSource
 import CijProofs.Lemmas.ModeGammaSource
 import Generated.AdapterSpec
 import CijProofs.Lemmas.AdapterGuardSource
+import Generated.ReadersSpec
+import CijProofs.Lemmas.ShearGlueSource
 namespace Cij.C05
 
 open Cij.LeastSq Cij.FullModulus
@@ -316,5 +318,25 @@ theorem c05_qha_adapter_is_source {α : Type} [OfNat α 0] [LT α] [DecidableLT 
     Generated.qhaReadInputCanonical = true ∧
     Cij.AdapterGuardSource.evalGuard Generated.pressureGuard pTvGpa desiredGpa = some (Cij.V2P.desiredPressureStatus pTvGpa desiredGpa) :=
   ⟨by decide, by decide, by decide, by decide, rfl, Cij.AdapterGuardSource.desiredPressureStatus_is_source pTvGpa desiredGpa⟩
+
+/-- `cij/io/traditional/elast_dat.py` (+ package glue) as translated on this run: `read_elast_data` and
+`apply_symetry_on_elast_data` are the statements the reader model mirrors (rows in file order, lattice block in file order, one frame row
+per volume BY NAME `"c%s%s" % key.v`, `fill_cij(df, **symmetry)` with the caller's dictionary untouched, rows written back as fresh
+mappings from `c_(key[1:])`), and the package re-exports the readers themselves (no caching wrapper) -/
+theorem c05_readers_are_source :
+    Generated.Readers.elastDatCanonical = true ∧ Generated.Readers.columnLiterals = ["c", ""] ∧ Generated.Readers.backSlice = 1 ∧
+    Generated.Readers.fillPositional = 1 ∧ Generated.Readers.fillKeywords = ["**<symmetry>"] ∧
+    Generated.Readers.rowVolumeIndex = 0 ∧ Generated.Readers.rowKeySlice = 1 ∧ Generated.Readers.rowValueSlice = 1 ∧
+    ("read_energy", "qha_input", "read_energy") ∈ Generated.Readers.packageImports ∧
+    ("read_elast_data", "elast_dat", "read_elast_data") ∈ Generated.Readers.packageImports := by decide
+
+/-- `shear.py` glue as translated on this run: the rotated strain fractions are diag(Tᵀ·diag(s)·T) in the written product order for
+every T and s — which strain fraction belongs to which rotated axis is what the source says now — and every def of the file is translated -/
+theorem c05_shear_glue_is_source {α : Type} [Add α] [Sub α] [Mul α] [Div α] [NatCast α] (env : Cij.ShearGlue.Env α)
+    (T : Cij.Shear.Mat3 α) (s : Cij.Shear.Vec3 α) (hs : env.self "strain" = some (.rows s))
+    (hT : env.self "transformation_matrix" = some (.mat T)) :
+    Cij.ShearGlue.runSr env [] Generated.ShearGlue.cls.strainRotated.2 = some (.rows (Cij.Shear.strainRotated T s)) ∧
+    Generated.ShearGlue.definedFunctions.length = 18 :=
+  ⟨Cij.ShearGlue.strainRotated_stmts_is_source env T s hs hT, by decide⟩
 
 end Cij.C05
